@@ -157,7 +157,7 @@ func isDigits(s string) bool {
 }
 
 func checkC15(c *vkit.Ctx) {
-	c.P.Rule = "four sub-workloads on generated documents: (A) one JSON matcher (Any with placeholders of every JSON kind, shorter/longer than the replaced value; Type of the right type; Custom) applied directly to an existing path (members incl. keys needing escapes, array elements, nested) - output must be valid JSON and decode, member order included, to set(decode(input), path, placeholder); (B) 1-3 matchers through snaps.MatchJSON/MatchStandaloneJSON with a []byte input carved out of a larger buffer - stored text must equal the left-to-right tree model and the caller's bytes and the guard regions must be unchanged; (C) one YAML matcher applied directly, judged against goccy's ordered decode; (D) snaps.MatchYAML with []byte input and the same canary; non-trivial = placeholder raw length differs from the replaced value, or the path needs escapes, or >= 2 matchers; distinct by hash(document, matchers)"
+	c.P.Rule = "four sub-workloads on generated documents: (A) one JSON matcher (Any with placeholders of every JSON kind, shorter/longer than the replaced value; Type of the right type; Custom) applied directly to an existing path (members incl. keys needing escapes, array elements, nested) - output must be valid JSON and decode, member order included, to set(decode(input), path, placeholder); (B) 1-3 matchers through snaps.MatchJSON/MatchStandaloneJSON with a []byte input carved out of a larger buffer - stored text must equal the left-to-right tree model and the caller's bytes and the guard regions must be unchanged; (C) one YAML matcher applied directly, judged against goccy's ordered decode; (D) snaps.MatchYAML with []byte input and the same canary; (E) one Any/Type matcher with several paths: unrelated paths against the tree model, and overlapping paths (parent before child, child before parent, same path twice) against the same paths applied one after the other (left to right), JSON and YAML; non-trivial = placeholder raw length differs from the replaced value, or the path needs escapes, or >= 2 matchers; distinct by hash(document, matchers)"
 	c.P.Assumptions = []string{"encoding/json (ordered token walk) and goccy's ordered-map decoder are the tree oracles", "a matcher that reports an error on an existing path is allowed by the statement; such cases are counted, not judged"}
 	n := c.N(100000, 3000000)
 	for i := 0; i < n; i++ {
